@@ -55,6 +55,8 @@ func c06Expressions() []struct {
 		{"Stringer(E)", func() any { return strer{"E"} }}, {"Or(a)", func() any { return stackage.Or().Push("a") }},
 		{"aliasS(And(a,b))", func() any { return StackAliasS(stackage.And().Push("a", "b")) }},
 		{"Cond(x=y)", func() any { return stackage.Cond("x", stackage.Eq, "y") }}, {"true", func() any { return true }},
+		{"CondAlias(x>y)", func() any { return CondAlias(stackage.Cond("x", stackage.Gt, "y")) }},
+		{"&CondAliasS(x<y)", func() any { a := CondAliasS(stackage.Cond("x", stackage.Lt, "y")); return &a }},
 	}
 }
 
@@ -73,6 +75,9 @@ func acceptOp(v any) (stackage.Operator, bool) {
 		return nil, false
 	}
 	op := v.(stackage.Operator)
+	if _, builtin := op.(stackage.ComparisonOperator); builtin {
+		return op, true // every ComparisonOperator value has a text (the six symbols or "<invalid_operator>") and a context
+	}
 	if op.String() == "" || op.Context() == "" {
 		return nil, false
 	}
@@ -276,7 +281,7 @@ func c06Machine(c *Ctx) *Machine[*condInst] {
 				if in.nspad {
 					pad = ""
 				}
-				want := in.kw + pad + in.op.String() + pad + refEncap(in.enc, renderExpr(in.ex))
+				want := in.kw + pad + refOpText(in.op) + pad + refEncap(in.enc, renderExpr(in.ex))
 				core, par := normParen(str)
 				if !in.paren {
 					core, par = str, false
